@@ -16,8 +16,8 @@ def bounded(tier, seed, fallback_for):
 
 MANIFEST = {
     "category": "exploration",
-    "technique": "bounded stand-in: real commands on generated temporary trees against independently computed expectations (contracts where listed in evidence)",
-    "text": 'Every way a cache write can be cut short (prefixes) and structural faults are injected before a real scan (bounded-exhaustive for the small report).',
-    "note": "bounded; the operating system, Pygments and pathspec are outside any contract we can discharge",
+    "technique": "contracts on the real functions discharged by z3/cvc5 (pyvc) for the per-call obligations; bounded stand-in on generated temporary trees for the whole statement",
+    "text": 'Every cache fault (missing, empty, truncated at every byte, non-JSON, wrong shape at every key, directory without file) is injected before a real scan (fault enumeration, bounded by the document used). Discharged for all inputs: _read_cached_report maps every exception class the reader can raise to "no cache".',
+    "note": 'bounded by the enumerated document; the reader is an assumed summary (exception classes only)',
     "design_ref": "DESIGN.md §6 C10",
 }
